@@ -412,6 +412,29 @@ theorem coloring_bounds (g : Graph) (hsq : g.nImg = g.nDom) (hwf : g.wf = true) 
   have h := GInv_upTo g g.nDom (Nat.le_refl _)
   exact ⟨h.ncol, h.lt⟩
 
+/-- the bound needs no hypothesis on the graph at all (`coloring_bounds` keeps its old signature for C17) -/
+theorem coloring_bounds_free (g : Graph) :
+    (Coloring.greedy g).numColors ≤ g.maxDegree + 1 ∧
+    ∀ i, i < g.nDom → (Coloring.greedy g).coloring.getD i 0 < (Coloring.greedy g).numColors := by
+  rw [greedy_eq]
+  have h := GInv_upTo g g.nDom (Nat.le_refl _)
+  exact ⟨h.ncol, h.lt⟩
+
+/-- what the greedy constructor guarantees on ANY graph: a node differs from every out-neighbour with a smaller
+index (the only ones the loop scans) -/
+theorem coloring_proper_scanned (g : Graph) :
+    ∀ i j, i < g.nDom → j ∈ g.row i → j < i →
+      (Coloring.greedy g).coloring.getD i 0 ≠ (Coloring.greedy g).coloring.getD j 0 := by
+  intro i j hi hj hlt
+  rw [greedy_eq]
+  exact (GInv_upTo g g.nDom (Nat.le_refl _)).proper i j hlt hi hj
+
+/-- without symmetry adjacent nodes may share a colour: edge 0 → 1 only -/
+theorem coloring_nonsymmetric_witness :
+    ∃ g : Graph, g.nImg = g.nDom ∧ g.wf = true ∧ ∃ i j, i < g.nDom ∧ j ∈ g.row i ∧ j ≠ i ∧
+      (Coloring.greedy g).coloring.getD i 0 = (Coloring.greedy g).coloring.getD j 0 :=
+  ⟨⟨2, [[1], []]⟩, rfl, by decide, 0, 1, by decide, by decide, by decide, by decide⟩
+
 theorem coloring_proper (g : Graph) (hsq : g.nImg = g.nDom) (hwf : g.wf = true)
     (hsym : ∀ i j, j ∈ g.row i → i ∈ g.row j) :
     ∀ i j, i < g.nDom → j ∈ g.row i → j ≠ i →
